@@ -45,6 +45,7 @@ func vfC20Output(c *vfc20.Case, tg *vfdoubles.Target, parallel int) *RedisOutput
 		TargetDb:                   -1,
 		KeyExists:                  pol,
 		KeyExistsLog:               c.Log,
+		ReplaceHashTag:             c.HashTag,
 		MaxProtoBulkLen:            c.MaxBulk,
 		ReplayRdbEnableRestore:     c.Restore,
 		ReplayRdbParallel:          parallel,
@@ -221,6 +222,9 @@ func TestVerifC20Syncer(t *testing.T) {
 		}
 		for _, c := range vfc20.ExhaustivePolicyStrings(mode) {
 			run(c, "exhaustive-policy-strings")
+		}
+		for _, c := range vfc20.ExhaustiveHashTag(mode) {
+			run(c, "exhaustive-hashtag")
 		}
 	}
 	for _, c := range vfc20.ExhaustiveBad("wplain") {
